@@ -72,6 +72,12 @@ def run_driver(exe, scenarios, threads, tag, timeout=240, perturb=0):
             results[rest[0]] = {"id": rest[0], "events": [{"ev": "Abort", "why": "driver died rc=%s: %s" % (rc, err[-300:])}]}
             rest = rest[1:]
         pending = rest
+        bad = sum(1 for r in results.values() if r["events"] and r["events"][-1].get("ev") == "Abort" and ("hang" in r["events"][-1].get("why", "") or "driver died" in r["events"][-1].get("why", "")))
+        if bad >= 4 and pending:
+            # enough evidence that loops hang / crash on this tree; the remaining scenarios are not run (neither accepted nor rejected)
+            for i in pending:
+                results[i] = {"id": i, "skipped": True, "events": []}
+            break
     for pth in (inp, outp):
         try:
             os.remove(pth)
@@ -154,6 +160,12 @@ def run(chk, replay=None):
         for i, s in enumerate(mine):
             if i not in res:
                 raise InfraError("no result for scenario %d on %s" % (i, backend))
+        nskip = sum(1 for i in range(len(mine)) if res[i].get("skipped"))
+        if nskip:
+            chk.note("%s T=%d: %d scenarios were not executed after 4 loops hung or crashed the driver" % (backend, threads, nskip))
+            mine = [s for i, s in enumerate(mine) if not res[i].get("skipped")]
+            res = dict(enumerate(r for _, r in sorted(res.items()) if not r.get("skipped")))
+        for i, s in enumerate(mine):
             execs.append(res[i]["events"])
         acc, rej, stats = trace.validate(os.path.join(SPEC, "ParallelForTrace.tla"), os.path.join(SPEC, "ParallelForTrace.cfg"),
                                          execs, "c01-%s-%d" % (backend, threads), reset_key="ev", max_rejections=12, timeout=1200)
